@@ -5,7 +5,7 @@ Replay driver for C46.  Floats are the 16 hex digits of their IEEE bits.
 
   run <spec> | n m maxIter hasBounds eps muMin muMax muFactor xtol gtol c1 x0[n] (lo[n] hi[n])? D[n]
         nR {x[n] r[m]}*  nV {r[m] y}*  nG {r[m] proj[m*n] grad[n] hess[n*n]}*
-        nQ {H[n*n] g[n] (dl[n] du[n])? ok dx[n]}*
+        nQ {warm[n] H[n*n] g[n] (dl[n] du[n])? ok dx[n]}*   (warm / dx = the dx buffer before / after the call)
       The tables are everything that crossed the residual / Norm / mju_boxQP interfaces in a logged run of
       the real `least_squares`.  The model `LeastSquares.leastSquares` is executed on `Float` with the three
       oracles answering by table lookup on the bit patterns of their arguments (a miss = `aborted`): every
@@ -49,12 +49,12 @@ def pReplay : PM Replay := do
     let r ← pVec m; let proj ← pMat m n; let g ← pVec n; let h ← pMat n n
     pure (bitsKey r ++ bitsKey proj.flatten, (g, h)))
   let QP ← pMany (do
-    let H ← pMat n n; let g ← pVec n
+    let w ← pVec n; let H ← pMat n n; let g ← pVec n
     let db ← if hb = 1 then (do let dl ← pVec n; let du ← pVec n; pure (dl ++ du)) else pure []
     let ok ← pNat; let dx ← pVec n
     if ok > 1 then failure
-    pure (bitsKey H.flatten ++ bitsKey g ++ bitsKey db,
-          if ok = 1 then QPResult.ok dx else QPResult.failed))
+    pure (bitsKey w ++ bitsKey H.flatten ++ bitsKey g ++ bitsKey db,
+          if ok = 1 then QPResult.ok dx else QPResult.failed dx))
   let rest ← get
   if !rest.isEmpty then failure
   let R := R.toArray; let V := V.toArray; let G := G.toArray; let QP := QP.toArray
@@ -66,9 +66,9 @@ def pReplay : PM Replay := do
     residual := fun x => lookup R (bitsKey x),
     norm := { value := fun r => lookup V (bitsKey r),
               gradHess := fun r proj => lookup G (bitsKey r ++ bitsKey proj.flatten) },
-    boxQP := fun H g db =>
+    boxQP := fun w H g db =>
       let k := match db with | none => [] | some (dl, du) => bitsKey dl ++ bitsKey du
-      lookup QP (bitsKey H.flatten ++ bitsKey g ++ k) }
+      lookup QP (bitsKey w ++ bitsKey H.flatten ++ bitsKey g ++ k) }
   pure { Q, x0 }
 
 def showVec (v : List Float) : String := ",".intercalate (v.map floatBits)
